@@ -13,13 +13,42 @@ class GramPolicy(Policy):
         # value-level guards inside a parser function (a parsed number against a limit) are not part of the grammar:
         # extraction follows the accepting path on a small representative (the guards have their own rules)
         self.witness = True
+        # hand-written stream handling (`input.strip_prefix(..)`, `trim_start_matches(..)`, `*input = rest`): every text
+        # derived from the stream gets a fresh name; only the newest one may be consumed further and it must be the
+        # value of the stream whenever a parser runs and when the function returns Ok — otherwise what the function
+        # consumes is not what the recorded steps say, and the extraction gives up
+        self.stream_gen = 0
+
+    def stream_name(self):
+        return "input" if self.stream_gen == 0 else "input#%d" % self.stream_gen
+
+    def fresh_stream(self):
+        self.stream_gen += 1
+        return Tok("T", self.stream_name(), "", dom="input")
+
+    def check_current(self, interp, tok, what):
+        if not (isinstance(tok, Tok) and tok.dom == "input" and tok.name == self.stream_name()):
+            raise Inconclusive("%s on a text that is not the current stream position (%r)" % (what, tok), interp.where())
 
     def str_parse(self, interp, args, info):
         return ok(Tok("I", "parsed", 1, dom="parsed"))
 
+    def stream_trim_start(self, interp, tok, pat, info):
+        """`input.trim_start_matches(pat)` / `trim_start()`: consumes a (possibly empty) run of the pattern"""
+        from .wmodels import to_class
+        self.check_current(interp, tok, "trim_start")
+        if pat is None:
+            raise Inconclusive("trim_start (Unicode white space) on the stream", interp.where())
+        cls = to_class(interp, pat)
+        self.steps.append(("step", P("take_while", [cls], extra=(0, None))))
+        return self.fresh_stream()
+
     def parse_next(self, interp, p, inp, info):
         targs = info.get("targs", [])
         n = len(self.steps) + 1
+        if self.stream_gen:
+            c_, path_ = interp.deref(inp)
+            self.check_current(interp, interp.strip(interp.read(c_, path_)), "a parser run")
 
         def result():
             if len(targs) >= 3:
@@ -40,8 +69,7 @@ class GramPolicy(Policy):
         returned remainder is a stream token, the caller is expected to store it back (`*input = rest`)."""
         from .wmodels import to_class, CharSet
         from .interp import ListV
-        if tok.dom != "input":
-            raise Inconclusive("strip_prefix on a text that is not the input stream", interp.where())
+        self.check_current(interp, tok, "strip_prefix")
         if isinstance(pat, StrV):
             inner = P("lit", extra=pat.s)
         else:
@@ -54,7 +82,7 @@ class GramPolicy(Policy):
         self.steps.append(("opt-some" if d == 0 else "opt-none", p))
         if d == 1:
             return NONE
-        return some(Tok("T", "input", "", dom="input"))
+        return some(self.fresh_stream())
 
 
 def default_value(prog, tix, name="r", depth=0):
@@ -145,11 +173,22 @@ def extract(prog):
                             return default_value(prog, prog.body(k3)["locals"][0], "val:%s" % k3)
                         ov[k3] = stub3
                 it = Interp(prog, pol, ctx=ctx, overrides=ov)
-                inp = Ptr(Cell(Ptr(Cell(Tok("T", "input", "", dom="input")))))
-                it.call_body(key, [inp])
+                outer = Cell(Ptr(Cell(Tok("T", "input", "", dom="input"))))
+                inp = Ptr(outer)
+                r = it.call_body(key, [inp])
+                failed = isinstance(r, Adt) and r.name == "std::result::Result" and r.variant == 1
+                if failed:
+                    return None                  # under these outcomes the function fails: not a path of its language
+                if pol.stream_gen:
+                    cur = it.strip(outer.v)
+                    if not (isinstance(cur, Tok) and cur.name == pol.stream_name()):
+                        raise Inconclusive("the function returns Ok with the stream at %r, not at the last position it derived" % (cur,))
                 return pol.steps
             for ctx, steps in explore(run, limit=64):
-                paths.append(steps)
+                if steps is not None:
+                    paths.append(steps)
+            if not paths:
+                raise Inconclusive("no successful path found")
         except (Inconclusive, Panic) as e:
             problems[key] = str(e)
             continue
@@ -201,9 +240,55 @@ class LeafPolicy(Policy):
         return ok(self.apply(interp, p))
 
 
-def run_with_leaf(prog, fn_key, leaf, ctx=None, overrides=None):
+def external_error_impls(prog):
+    """[(body key, external error type as written)] of the crate's `FromExternalError<_, E2>` impls"""
+    import re
+    out = []
+    for im in prog.impls:
+        if im["trait"].endswith("FromExternalError") and "from_external_error" in im["items"]:
+            tr = im["trait_ref"]
+            i = tr.find("FromExternalError<")
+            ty = ""
+            if i >= 0:
+                inner = tr[i + len("FromExternalError<"):]
+                depth, cut = 0, None
+                for j, ch in enumerate(inner):
+                    if ch == "<":
+                        depth += 1
+                    elif ch == ">":
+                        if depth == 0:
+                            inner = inner[:j]
+                            break
+                        depth -= 1
+                    elif ch == "," and depth == 0 and cut is None:
+                        cut = j
+                ty = inner[cut + 1:].strip() if cut is not None else ""
+            out.append((im["items"]["from_external_error"], ty))
+    return out
+
+
+def convert_external_error(interp, inp, e):
+    """what winnow's `try_map` does with `Err(e)` of its function: `ErrMode::Backtrack(E::from_external_error(input,
+    ErrorKind::Verify, e))`, with the crate's own impl for the type of `e` interpreted"""
+    prog = interp.prog
+    ev = interp.strip(e)
+    name = ev.name if isinstance(ev, Adt) else None
+    cands = [k for k, ty in external_error_impls(prog) if name and (ty == name or ty.startswith(name + "<"))]
+    if len(cands) != 1:
+        raise Inconclusive("no unique FromExternalError impl for %r" % (name,), interp.where())
+    r = interp.call_key(cands[0], [inp, Tok("O", "error-kind"), e])
+    EM = next((k for k in prog.adts if k.startswith("winnow::error::ErrMode")), None)
+    if EM is None:
+        raise Inconclusive("ErrMode not found")
+    from .interp import err
+    return err(Adt(EM, prog.variant_index(EM, "Backtrack"), (r,)))
+
+
+def run_with_leaf(prog, fn_key, leaf, ctx=None, overrides=None, setup=None):
     """interpret parser function `fn_key` with LeafPolicy; returns (value inside Ok, interp)"""
     pol = LeafPolicy(leaf)
+    if setup is not None:
+        setup(pol)
     it = Interp(prog, pol, ctx=ctx, overrides=overrides or {})
     inp = Ptr(Cell(Ptr(Cell(Tok("T", "input", "", dom="input")))))
     r = it.call_body(fn_key, [inp])
@@ -287,7 +372,9 @@ def literal_table(g, fn):
         return None
     out = []
     for a in tree.args:
-        clo = a.extra if a.kind == "map" else None
+        while a.kind in ("context", "cut_err"):
+            a = a.args[0]
+        clo = a.extra if a.kind == "map" else (("value", a.extra) if a.kind == "value" else None)
         inner = strip(a)
         if inner.kind != "lit":
             return None
